@@ -204,12 +204,129 @@ def _brief(spec):
             'seqs': [i['seq'] for i in spec['inputs']], 'values': [i['value'] for i in spec['inputs']],
             'n_out': len(spec['outputs']), 'network': spec['network']}
 
+# ---- routes: the ways keys and previous-output data reach a transaction
+HOW_IN = ['keys', 'pub', 'nokeys']
+KEY_FORMS = ['Key', 'HDKey', 'bytes', 'hex', 'wif']
+CALLS = ['all', 'per_index', 'each_key', 'per_index_own']
+
+
+def sub_route(case):
+    """One spec, one route: how the inputs learn their keys (private Key objects at add_input / public keys only /
+    nothing), in which form the private keys are handed to sign() (Key, HDKey, 32 raw bytes, hex, WIF), and how
+    sign() is called (one call with all keys, one call per input, one call per key).  Whatever the route, every
+    input the library reports as signed must pass the reference interpreter for the output being spent."""
+    from bitcoinlib.transactions import Transaction
+    from bitcoinlib.keys import Key, HDKey
+    spec, how_in, form, call = case['spec'], case['how_in'], case['form'], case['call']
+    net = spec['network']
+    refs = [txgen.input_ref(i) for i in spec['inputs']]
+    devs, outs, nt = [], {}, []
+    route = '%s|%s|%s' % (how_in, form, call)
+    kinds = '+'.join(i['kind'] for i in spec['inputs'])
+
+    def dev(sig, detail):
+        detail.update({'route': route, 'kinds': kinds, 'same_key': case.get('same_key', False)})
+        devs.append({'sig': sig, 'detail': detail})
+
+    def out(label):
+        outs[label] = outs.get(label, 0) + 1
+    any_segwit = any(txgen.KINDS[i['kind']][1] != 'legacy' for i in spec['inputs'])
+    try:
+        t = Transaction(network=net, witness_type='segwit' if any_segwit else 'legacy', version=spec['version'],
+                        locktime=spec['locktime'])
+        for inp in spec['inputs']:
+            st, wt, comp, ms = txgen.KINDS[inp['kind']]
+            if how_in == 'keys':
+                ks = [Key(d.to_bytes(32, 'big').hex(), network=net, compressed=comp) for d in inp['keys']]
+            elif how_in == 'pub':
+                ks = [secp.ser(secp.pub(d), comp).hex() for d in inp['keys']]
+            else:
+                ks = None
+            if ks is None:
+                t.add_input(inp['txid'], inp['vout'], script_type=st, witness_type=wt, sequence=inp['seq'],
+                            value=inp['value'], compressed=comp)
+            else:
+                t.add_input(inp['txid'], inp['vout'], keys=ks if ms else ks[0], script_type=st, witness_type=wt,
+                            sigs_required=inp.get('m', 1) if ms else None, sequence=inp['seq'], value=inp['value'],
+                            compressed=comp)
+        for o in spec['outputs']:
+            a = txgen.output_address(o, net)
+            if a is not None:
+                t.add_output(o['value'], a)
+            else:
+                t.add_output(o['value'], lock_script=txgen.output_ref(o, net)[1])
+        # the private keys in the requested form; Key / HDKey / WIF carry a compression flag: one per (scalar, flag)
+        def in_form(d, comp):
+            b = d.to_bytes(32, 'big')
+            if form == 'Key':
+                return Key(b.hex(), network=net, compressed=comp)
+            if form == 'HDKey':
+                return HDKey(key=b, chain=b'\x07' * 32, network=net, compressed=comp)
+            if form == 'wif':
+                return Key(b.hex(), network=net, compressed=comp).wif()
+            return b if form == 'bytes' else b.hex()
+        pairs, own = [], []
+        for inp in spec['inputs']:
+            comp = txgen.KINDS[inp['kind']][2]
+            ds = inp['keys'][:inp.get('m', 1)] if txgen.KINDS[inp['kind']][3] else inp['keys']
+            own.append([in_form(d, comp) for d in ds])
+            for d in ds:
+                if (d, comp) not in pairs:
+                    pairs.append((d, comp))
+        keys = []
+        for d, comp in pairs:
+            k = in_form(d, comp)
+            if not (form in ('bytes', 'hex') and k in keys):
+                keys.append(k)
+        if call == 'all':
+            t.sign(keys)
+        elif call == 'per_index':
+            for n in range(len(spec['inputs'])):
+                t.sign(keys, index_n=n)
+        elif call == 'per_index_own':
+            for n in range(len(spec['inputs'])):
+                t.sign(own[n], index_n=n)
+        else:
+            for k in keys:
+                t.sign(k)
+        raw = t.raw()
+        r = rtx.parse(raw)
+    except Exception as e:
+        out('refused')
+        # routes the library may refuse: not demanded.  A route it accepts must give valid signatures.
+        return {'devs': devs, 'out': outs, 'nt': [], 'ret': {'refused': repr(e)[:120]}}
+    sh = hashlib.sha256(repr((_brief(spec), [i['keys'] for i in spec['inputs']], route)).encode()).hexdigest()[:12]
+    for idx, (inp, ref) in enumerate(zip(spec['inputs'], refs)):
+        li = t.inputs[idx]
+        need = inp.get('m', 1)
+        if len(li.signatures) < need:
+            out('input_left_unsigned')
+            continue
+        wit = r.wit[idx] if r.wit else []
+        ok = interp.verify_script(r.vin[idx]['script'], ref['spk'], wit, interp.TxChecker(r, idx, ref['amount']))
+        nt.append('%s.%d' % (sh, idx))
+        if ok is not True:
+            dev('route|signed_input_fails_reference_interpreter|%s|in=%s|form=%s' % (inp['kind'], how_in, form),
+                {'input': idx, 'script_sig': r.vin[idx]['script'].hex()[:300], 'spk': ref['spk'].hex()})
+            out('verify_fail')
+        else:
+            out('verify_ok')
+        exp = _ref_digest(r, idx, ref)
+        try:
+            got = t.signature_hash(idx, 1, txgen.KINDS[inp['kind']][1])
+        except Exception as e:
+            got = repr(e)[:100]
+        if got != exp:
+            dev('route|signature_hash_of_signed_input_differs|%s|in=%s|form=%s' % (inp['kind'], how_in, form),
+                {'input': idx, 'expected': exp.hex(), 'got': got.hex() if isinstance(got, bytes) else got})
+    return {'devs': devs, 'out': outs, 'nt': nt, 'n': max(1, len(nt))}
+
 
 def sub_hist(case):
     return txhist.sub_hist(case, txhist.check_digests_and_signatures)
 
 
-SUBS = {'tx': sub_tx, 'hist': sub_hist}
+SUBS = {'tx': sub_tx, 'route': sub_route, 'hist': sub_hist}
 
 SUPPLY = 21 * 10 ** 14
 FIELDS = [
@@ -292,6 +409,45 @@ def run(ctx):
     for kind in K:
         add([kind], f=FIELDS[4], outputs=shapes[2], kb=100 + (seed % 1000))
     ctx.pmap('tx', cases)
+    # routes: key delivery x key form x call pattern, for every single kind and every pair (thorough: triple) of
+    # single-signature kinds; "same_key" = all inputs are paid to the same private key (its compressed and
+    # uncompressed addresses and script types), the only case in which inputs without keys can be signed
+    rcases = []
+    single = ['p2pkh', 'p2pkh_u', 'p2wpkh', 'p2sh_p2wpkh']
+
+    def radd(kinds, same_key, hows=HOW_IN):
+        spec = txgen.make_spec(seed, list(kinds), mn=(2, 3), version=FIELDS[1]['version'], locktime=FIELDS[1]['locktime'],
+                               seqs=FIELDS[1]['seqs'], values=[70000, 80000, 90000], outputs=shapes[0])
+        if same_key:
+            for i in spec['inputs']:
+                i['keys'] = list(spec['inputs'][0]['keys'])
+        for how in hows:
+            if how == 'nokeys' and (len(kinds) > 1 and not same_key):
+                continue    # sign() installs ALL given keys on a keyless input: only meaningful with one key
+            mixed = len(set(txgen.KINDS[k][2] for k in kinds)) > 1
+            for form in KEY_FORMS:
+                if how == 'nokeys' and mixed and form in ('Key', 'HDKey', 'wif'):
+                    # a key object / WIF carries one compression flag and sign() installs the given keys as they
+                    # are on a keyless input: only the raw forms can serve inputs of both flags
+                    continue
+                for call in CALLS:
+                    if len(kinds) > 1 and not same_key and call != 'per_index_own':
+                        continue    # a key that belongs to no key of an input is refused by sign(): one call per input
+                    rcases.append({'spec': spec, 'how_in': how, 'form': form, 'call': call, 'same_key': same_key})
+    for kind in K:
+        radd([kind], False, HOW_IN if kind in single else HOW_IN[:2])
+    for kinds in itertools.product(single, repeat=2):
+        radd(kinds, False)
+        radd(kinds, True)
+    for kinds in itertools.product(K, repeat=2):
+        if not (kinds[0] in single and kinds[1] in single):
+            radd(kinds, False, HOW_IN[:2])
+    if not q:
+        for kinds in itertools.product(single, repeat=3):
+            radd(kinds, True)
+            radd(kinds, False, HOW_IN[:2])
+    res = ctx.pmap('route', rcases)
+    ctx.note('routes', {'cases': len(rcases), 'how_in': HOW_IN, 'key_forms': KEY_FORMS, 'calls': CALLS})
     # operation histories on one live Transaction object (state surviving between calls): BFS, every history
     # replayed on a fresh object; the digest must match the CURRENT fields and a freshly re-signed transaction
     # must pass the reference interpreter
